@@ -1000,6 +1000,26 @@ func (fv *FV) execSelect(st *State, s *ast.SelectStmt, label string) *State {
 	fv.fn.loops = append(fv.fn.loops, lc)
 	defer func() { fv.fn.loops = fv.fn.loops[:len(fv.fn.loops)-1] }()
 	var outs []*State
+	// on entry every channel operand (and send value) is evaluated once, in source order:
+	// calls made there (mach.WhenQueue(res), ctx.Done(), time.After(d)) do happen
+	for _, cc := range s.Body.List {
+		c := cc.(*ast.CommClause)
+		var rx ast.Expr
+		switch cm := c.Comm.(type) {
+		case *ast.ExprStmt:
+			rx = cm.X
+		case *ast.AssignStmt:
+			if len(cm.Rhs) == 1 {
+				rx = cm.Rhs[0]
+			}
+		case *ast.SendStmt:
+			fv.eval(st, cm.Chan)
+			fv.eval(st, cm.Value)
+		}
+		if u, ok := unparen(rx).(*ast.UnaryExpr); rx != nil && ok && u.Op == token.ARROW {
+			fv.eval(st, u.X)
+		}
+	}
 	rest := st
 	n := len(s.Body.List)
 	for i, cc := range s.Body.List {
